@@ -13,6 +13,7 @@ import (
 
 	"github.com/hashicorp/raft"
 
+	"github.com/hashicorp/consul/agent/consul"
 	"github.com/hashicorp/consul/agent/consul/state"
 	"github.com/hashicorp/consul/agent/structs"
 )
@@ -36,6 +37,8 @@ type TokReq struct {
 //	cfg-upsert, cfg-upsert-cas, cfg-upsert-status-cas, cfg-delete, cfg-delete-cas
 //	ca-set-config (Index 0 = unconditional, as the FSM decides), ca-set-roots, ca-set-roots-config
 //	autopilot (CAS flag), token-set (CAS flag), token-delete, feature-gate
+//	rpc-cfg-apply, rpc-cfg-delete (CAS flag): the decision of the RPC endpoints ConfigEntry.Apply /
+//	ConfigEntry.Delete -- the real shouldSkipOperation, then the FSM command
 type CCmd struct {
 	Kind string `json:"kind"`
 	Idx  uint64 `json:"idx"`
@@ -258,7 +261,54 @@ func cerrClass(msg string) string {
 	return "EOther:" + msg
 }
 
+// rpcConfigEntry mirrors the tail of ConfigEntry.Apply / ConfigEntry.Delete (config_endpoint.go): the
+// operation is normalised to upsert / upsert-cas (delete / delete-cas), the real shouldSkipOperation
+// is consulted, and only if it declines is the Raft command applied and its boolean returned.
+func (im *impl) rpcConfigEntry(c *CCmd) CRes {
+	e := configEntry(c.CKind, c.Name, c.Content, c.Status, c.Index)
+	if err := e.Normalize(); err != nil {
+		panic(err)
+	}
+	var op structs.ConfigEntryOp
+	del := c.Kind == "rpc-cfg-delete"
+	switch {
+	case del && c.CAS:
+		op = structs.ConfigEntryDeleteCAS
+	case del:
+		op = structs.ConfigEntryDelete
+	case c.CAS:
+		op = structs.ConfigEntryUpsertCAS
+	default:
+		op = structs.ConfigEntryUpsert
+	}
+	args := &structs.ConfigEntryRequest{Datacenter: "dc1", Op: op, Entry: e}
+	skip, err := consul.VerifC10ConfigEntryShouldSkip(im.f, args)
+	if err != nil {
+		return CRes{Kind: "err", Err: cerrClass(err.Error()), Msg: err.Error()}
+	}
+	if skip {
+		return CRes{Kind: "bool", Bool: true} // "*reply = true" / "reply.Deleted = true"
+	}
+	b, err := structs.Encode(structs.ConfigEntryRequestType, args)
+	if err != nil {
+		panic(err)
+	}
+	switch v := im.f.Apply(&raft.Log{Index: c.Idx, Term: 1, Type: raft.LogCommand, Data: b}).(type) {
+	case bool:
+		return CRes{Kind: "bool", Bool: v}
+	case nil: // plain delete: "any non-error result indicates a successful deletion"
+		return CRes{Kind: "bool", Bool: true}
+	case error:
+		return CRes{Kind: "err", Err: cerrClass(v.Error()), Msg: v.Error()}
+	default:
+		return CRes{Kind: "err", Err: fmt.Sprintf("EOther:unexpected result type %T", v)}
+	}
+}
+
 func (im *impl) capply(c *CCmd) CRes {
+	if c.Kind == "rpc-cfg-apply" || c.Kind == "rpc-cfg-delete" {
+		return im.rpcConfigEntry(c)
+	}
 	out := im.f.Apply(&raft.Log{Index: c.Idx, Term: 1, Type: raft.LogCommand, Data: cencode(c)})
 	switch v := out.(type) {
 	case nil:
